@@ -99,17 +99,40 @@ def r_sum_zero(ctx: RuleCtx, col: Collector):
         for n in ast.walk(f.node):
             if not isinstance(n, ast.Compare) or len(n.ops) != 1 or not isinstance(n.ops[0], (ast.Eq, ast.NotEq)):
                 continue
+            if isinstance(parent(n), ast.Compare):
+                continue
             for side, other in ((n.left, n.comparators[0]), (n.comparators[0], n.left)):
                 if not (isinstance(other, ast.Constant) and other.value in (0, 0.0)):
                     continue
                 arg = None
+                extreme = None
                 if isinstance(side, ast.Call):
                     fn = norm(side.func)
                     if fn in ("np.sum", "np.mean", "np.average", "np.nansum", "sum") and side.args:
                         arg = side.args[0]
-                    elif isinstance(side.func, ast.Attribute) and side.func.attr in ("sum", "mean"):
+                    elif isinstance(side.func, ast.Attribute) and side.func.attr in ("sum", "mean") and not norm(side.func.value) in ("np", "numpy"):
                         arg = side.func.value
+                    elif fn in ("np.max", "np.min", "np.amax", "np.amin") and side.args:
+                        arg, extreme = side.args[0], fn[-3:]
+                    elif isinstance(side.func, ast.Attribute) and side.func.attr in ("max", "min") and not norm(side.func.value) in ("np", "numpy"):
+                        arg, extreme = side.func.value, side.func.attr
                 if arg is None:
+                    continue
+                if extreme is not None:
+                    # max(x) == 0 is an all-zero test only together with min(x) == 0 (or for non-negative x)
+                    other_ext = "min" if extreme == "max" else "max"
+                    ctxt = n
+                    while isinstance(parent(ctxt), (ast.BoolOp, ast.UnaryOp)):
+                        ctxt = parent(ctxt)
+                    t = norm(ctxt)
+                    a = norm(arg)
+                    if _nonneg(arg) or f"{a}.{other_ext}()" in t or f"np.{other_ext}({a})" in t or f"np.a{other_ext}({a})" in t:
+                        col.ok(where_of(f), f.rel, line_of(n), norm(n), "both extremes tested / non-negative data")
+                    elif isinstance(n.ops[0], ast.Eq):
+                        col.bad(where_of(f), f.rel, line_of(n), norm(n),
+                                f"'{norm(side)} == 0' alone does not say that all entries are zero: data that is non-"
+                                f"{'positive' if extreme == 'max' else 'negative'} with one exact zero passes the test (a seed of "
+                                f"one sign), so non-zero data is skipped")
                     continue
                 if _nonneg(arg):
                     col.ok(where_of(f), f.rel, line_of(n), norm(n), "sum of non-negative terms")
@@ -330,10 +353,10 @@ def _view_tainted(e: ast.AST, tainted: Set[str], is_source: Callable[[ast.AST], 
             return False
         return _view_tainted(e.value, tainted, is_source)
     if isinstance(e, ast.Call):
-        if isinstance(e.func, ast.Attribute) and e.func.attr in VIEW_METHODS:
-            return _view_tainted(e.func.value, tainted, is_source)
         if norm(e.func) in VIEW_FUNCS and e.args:
             return _view_tainted(e.args[0], tainted, is_source)
+        if isinstance(e.func, ast.Attribute) and e.func.attr in VIEW_METHODS:
+            return _view_tainted(e.func.value, tainted, is_source)
         return False
     if isinstance(e, ast.IfExp):
         return _view_tainted(e.body, tainted, is_source) or _view_tainted(e.orelse, tainted, is_source)
@@ -599,6 +622,23 @@ def r_solver_fresh(ctx: RuleCtx, col: Collector):
                 col.bad(where_of(upd), upd.rel, line_of(at), construct,
                         f"update() assigns self.{a} only on some paths ({detail}): on the others solve() reads the value left by an "
                         f"earlier matrix (or by the constructor), e.g. a failure flag that is never cleared again")
+        # what solve() memoises (stores into a container attribute, or assigns lazily) and reads back belongs to one
+        # matrix: update() must clear or re-create it
+        ssites = [x for x in af.closure_sites(sol)]
+        for a in sorted({x.attr for x in ssites} & set(reads)):
+            subs = [x for x in ssites if x.attr == a and x.sub]
+            if not subs:
+                continue
+            cleared = a in must or any(
+                isinstance(x, ast.Call) and isinstance(x.func, ast.Attribute) and x.func.attr == "clear" and norm(x.func.value) == f"{selfn}.{a}"
+                for g in af.closure(upd) for x in ast.walk(g.node))
+            construct = f"{c.name}: self.{a} memoised by solve()"
+            if cleared:
+                col.ok(where_of(upd), upd.rel, line_of(upd.node), construct, "cleared / re-created by update()")
+            else:
+                col.bad(where_of(sol), sol.rel, line_of(subs[0].stmt), construct,
+                        f"solve() stores into self.{a} ('{stmt_key(subs[0].stmt)}') and reads it back later, but update() neither "
+                        f"clears nor re-creates it: after a new matrix the cached entry still belongs to the old one")
     dedupe(col)
 
 
@@ -1262,3 +1302,238 @@ def r_trans_use(ctx: RuleCtx, col: Collector):
                             f"the inner solve is called without trans: it solves the un-transposed (coarse / preconditioning) "
                             f"system whatever mode was requested")
     dedupe(col)
+
+
+# =========================================================================================== after round 4
+@rule("R-ATTR-OWNER", floor=3)
+def r_attr_owner(ctx: RuleCtx, col: Collector):
+    """A cache attribute that a `_sensitivity` closure reads has one writer class inside the `_response` closure: when
+    a base-class method and a subclass method both assign the same attribute during one response (with different
+    meanings: 'the scaled result' / 'the un-scaled soft-max'), the later one silently replaces what the other's
+    derivative needs."""
+    from ..attrs import AttrFlow
+    m = ctx.model
+    for c, sens in module_methods(ctx, "_sensitivity"):
+        resp = m.resolve_method(c, "_response")
+        if resp is None or resp.cls is m.module_base():
+            continue
+        af = AttrFlow(ctx.flow, c)
+        reads = af.reads(sens)
+        writers: Dict[str, Dict[str, ast.AST]] = {}
+        for s in af.closure_sites(resp):
+            if s.sub or s.aug:
+                continue
+            if isinstance(s.value, ast.Constant) and s.value.value is None:
+                continue
+            owner = s.f.cls.name if s.f.cls is not None else "?"
+            writers.setdefault(s.attr, {}).setdefault(owner, s.stmt)
+        for a in sorted(set(reads) & set(writers)):
+            w = writers[a]
+            construct = f"{c.name}: self.{a} written during response(), read by the sensitivity"
+            if len(w) > 1:
+                names = sorted(w)
+                col.bad(where_of(resp), resp.rel, line_of(w[names[0]]), construct,
+                        f"self.{a} is assigned by methods of {names} in one response ('{stmt_key(w[names[0]])}' and "
+                        f"'{stmt_key(w[names[1]])}'): the value the sensitivity of {c.name} reads is whichever came last, not "
+                        f"necessarily the one its own derivative was written for")
+            else:
+                col.ok(where_of(resp), resp.rel, line_of(list(w.values())[0]), construct, f"single writer class {sorted(w)[0]}")
+    dedupe(col)
+
+
+@rule("R-SYM-HERM", floor=1)
+def r_sym_herm(ctx: RuleCtx, col: Collector):
+    """'Symmetric' implies 'Hermitian' only for real matrices: wherever a Hermitian flag is taken from a symmetric flag,
+    the assignment is guarded by a test that the matrix is not complex (a complex-symmetric matrix is not Hermitian; a
+    solver told otherwise reads one triangle and solves a different system)."""
+    from .solver import guard_facts
+    m = ctx.model
+    n_inst = 0
+    for f in _functions(m):
+        cfg = None
+        for n in ast.walk(f.node):
+            if not isinstance(n, ast.Assign):
+                continue
+            tg = norm(n.targets[0]).lower()
+            if "hermitian" not in tg:
+                continue
+            srcs = [x for x in ast.walk(n.value) if isinstance(x, (ast.Name, ast.Attribute)) and "symmetric" in norm(x).lower().split(".")[-1]
+                    and "matrix_is" not in norm(x)]
+            # the symmetric flag is the *value* taken (not merely tested)
+            val_srcs = []
+            for x in srcs:
+                p_ = parent(x)
+                if isinstance(p_, ast.Compare) or (isinstance(p_, ast.IfExp) and p_.test is x):
+                    continue
+                val_srcs.append(x)
+            if not val_srcs:
+                continue
+            n_inst += 1
+            cfg = cfg or ctx.flow.cfg(f)
+            nd = cfg.node_of(n)
+            facts = guard_facts(cfg, nd) if nd is not None else []
+            real_guard = any(("complex" in t and not pol) or ("isreal" in t.replace("_", "") and pol) for t, pol in facts)
+            construct = f"{f.short}: '{stmt_key(n)}'"
+            if real_guard:
+                col.ok(where_of(f), f.rel, line_of(n), construct, "only for real matrices")
+            else:
+                col.bad(where_of(f), f.rel, line_of(n), construct,
+                        f"the Hermitian flag is taken from '{norm(val_srcs[0])}' without a test that the matrix is real: for a "
+                        f"complex-symmetric matrix (K + i w C) a Hermitian solver is then selected")
+    if n_inst == 0:
+        raise AnalysisError("no assignment of a Hermitian flag from a symmetric flag found")
+    dedupe(col)
+
+
+NARROW_INT = {"np.uint8", "np.uint16", "np.uint32", "np.int8", "np.int16", "np.int32", "'uint8'", "'uint16'", "'uint32'", "'int8'", "'int16'", "'int32'"}
+
+
+@rule("R-NARROW-INT", floor=0, witness_min=1)
+def r_narrow_int(ctx: RuleCtx, col: Collector):
+    """Index tables that enter arithmetic (conn * ndof, offsets added to node numbers) are platform integers: a table
+    allocated with a narrow or size-dependent integer type (np.uint8..32, np.min_scalar_type) wraps around silently
+    when multiplied.  Tables that are only used as indices may be narrow."""
+    m = ctx.model
+    for c in list(m.classes.values()):
+        narrow: Dict[str, ast.AST] = {}
+        for defs in c.methods.values():
+            for f in defs:
+                sn = m.self_name(f)
+                for n in ast.walk(f.node):
+                    if isinstance(n, ast.Assign) and isinstance(n.value, ast.Call):
+                        dt = [k.value for k in n.value.keywords if k.arg == "dtype"]
+                        if dt and (norm(dt[0]) in NARROW_INT or "min_scalar_type" in norm(dt[0])):
+                            for t in n.targets:
+                                if isinstance(t, ast.Attribute) and isinstance(t.value, ast.Name) and t.value.id == sn:
+                                    narrow[t.attr] = n
+        if not narrow:
+            continue
+        for defs in c.methods.values():
+            for f in defs:
+                sn = m.self_name(f)
+                for n in ast.walk(f.node):
+                    if isinstance(n, ast.BinOp) and isinstance(n.op, (ast.Mult, ast.Add, ast.Sub, ast.LShift)):
+                        for side in (n.left, n.right):
+                            b = side
+                            while isinstance(b, ast.Subscript):
+                                b = b.value
+                            if isinstance(b, ast.Attribute) and isinstance(b.value, ast.Name) and b.value.id == sn and b.attr in narrow:
+                                col.bad(where_of(f), f.rel, line_of(n), f"{c.name}.{b.attr} in '{norm(n)[:60]}'",
+                                        f"self.{b.attr} is allocated by '{stmt_key(narrow[b.attr])}' with a narrow integer type and is "
+                                        f"an operand of arithmetic here: the result keeps that type and wraps around (node number * "
+                                        f"dofs per node exceeds 255 / 65535 long before the table itself does)")
+    # local tables in functions
+    for f in _functions(m):
+        loc: Dict[str, ast.AST] = {}
+        for n in ast.walk(f.node):
+            if isinstance(n, ast.Assign) and isinstance(n.value, ast.Call) and len(n.targets) == 1 and isinstance(n.targets[0], ast.Name):
+                dt = [k.value for k in n.value.keywords if k.arg == "dtype"]
+                if dt and (norm(dt[0]) in NARROW_INT or "min_scalar_type" in norm(dt[0])):
+                    loc[n.targets[0].id] = n
+        for n in ast.walk(f.node):
+            if isinstance(n, ast.BinOp) and isinstance(n.op, (ast.Mult, ast.LShift)):
+                for side in (n.left, n.right):
+                    b = side
+                    while isinstance(b, ast.Subscript):
+                        b = b.value
+                    if isinstance(b, ast.Name) and b.id in loc:
+                        col.bad(where_of(f), f.rel, line_of(n), f"{f.short}: '{b.id}' in '{norm(n)[:60]}'",
+                                f"'{b.id}' is allocated with a narrow integer type ('{stmt_key(loc[b.id])}') and multiplied here: the "
+                                f"product wraps around")
+    dedupe(col)
+
+
+@rule("R-LOOP-BUFFER", floor=0, witness_min=1)
+def r_loop_buffer(ctx: RuleCtx, col: Collector):
+    """A work array that is read as a whole inside a loop iteration after being filled through masked / indexed stores is
+    created (or fully reset) in that iteration: hoisting the allocation in front of the loop leaves the entries an
+    iteration does not store with the values of the previous one."""
+    m = ctx.model
+    todo = [f for _, f in module_methods(ctx, "_response") + module_methods(ctx, "_sensitivity")]
+    todo += [f for f in _functions(m) if f.rel == "pymoto/_pmlint_witness.py"]
+    seen = set()
+    for f in todo:
+        if id(f) in seen:
+            continue
+        seen.add(id(f))
+        for lp in [n for n in ast.walk(f.node) if isinstance(n, (ast.For, ast.While))]:
+            # arrays allocated before this loop, at the same nesting level as the loop or outside
+            outer_allocs: Dict[str, ast.AST] = {}
+            for n in ast.walk(f.node):
+                if isinstance(n, ast.Assign) and len(n.targets) == 1 and isinstance(n.targets[0], ast.Name) and isinstance(n.value, ast.Call) and \
+                        norm(n.value.func) in ("np.zeros", "np.zeros_like", "np.empty", "np.empty_like", "np.ones", "np.ones_like") and \
+                        n.lineno < lp.lineno and not any(x is n for x in ast.walk(lp)):
+                    outer_allocs[n.targets[0].id] = n
+            for nm, at in outer_allocs.items():
+                body_nodes = [x for b in lp.body for x in ast.walk(b)]
+                rebound = any(isinstance(x, ast.Assign) and any(isinstance(t, ast.Name) and t.id == nm for t in x.targets) for x in body_nodes)
+                whole_reset = any((isinstance(x, ast.Assign) and isinstance(x.targets[0], ast.Subscript) and norm(x.targets[0].value) == nm and
+                                   norm(x.targets[0].slice) in (":", "...", "Ellipsis")) or
+                                  (isinstance(x, ast.Call) and isinstance(x.func, ast.Attribute) and x.func.attr == "fill" and norm(x.func.value) == nm)
+                                  for x in body_nodes)
+                if rebound or whole_reset:
+                    continue
+                part_store = [x for x in body_nodes if isinstance(x, (ast.Assign, ast.AugAssign)) and
+                              isinstance((x.targets[0] if isinstance(x, ast.Assign) else x.target), ast.Subscript) and
+                              norm((x.targets[0] if isinstance(x, ast.Assign) else x.target).value) == nm]
+                plain_assign = [x for x in part_store if isinstance(x, ast.Assign)]
+                aug = [x for x in part_store if isinstance(x, ast.AugAssign)]
+                whole_read = [x for x in body_nodes if isinstance(x, ast.Name) and x.id == nm and isinstance(x.ctx, ast.Load) and
+                              not isinstance(parent(x), ast.Subscript)]
+                # the signature of a per-iteration accumulator: assigned AND accumulated through indices, then read whole
+                if plain_assign and aug and whole_read:
+                    col.bad(where_of(f), f.rel, line_of(at), f"{f.short}: work array '{nm}' allocated in front of the loop at line {lp.lineno}",
+                            f"'{nm}' is filled through indexed stores ('{stmt_key(plain_assign[0])}', '{stmt_key(aug[0])}') and then read as "
+                            f"a whole ('{norm(parent(whole_read[0]))[:50]}') in every iteration, but it is allocated once before the loop "
+                            f"and never reset: entries an iteration does not assign keep accumulating from the previous ones")
+    dedupe(col)
+
+
+@rule("R-FD-NO-SKIP", floor=1)
+def r_fd_no_skip(ctx: RuleCtx, col: Collector):
+    """finite_difference reports a pair for every perturbed entry of every input: nothing in the loop over the inputs is
+    skipped on the strength of the *analytical* sensitivities (an input whose sensitivity came back None is exactly
+    the case a forgotten dependency produces; it must be reported as 0 against the numerical value)."""
+    m = ctx.model
+    f = m.public_function("finite_difference")
+    # names holding analytical sensitivities: assigned from expressions reading `.sensitivity`
+    an = _dependent_names(f.node, set(), selfn=None)
+    seeds = set()
+    for n in ast.walk(f.node):
+        if isinstance(n, (ast.Assign, ast.AugAssign)):
+            val = n.value
+            if any(isinstance(x, ast.Attribute) and x.attr == "sensitivity" and isinstance(x.ctx, ast.Load) for x in ast.walk(val)):
+                tg = n.targets if isinstance(n, ast.Assign) else [n.target]
+                for t in tg:
+                    b = t
+                    while isinstance(b, ast.Subscript):
+                        b = b.value
+                    if isinstance(b, ast.Name):
+                        seeds.add(b.id)
+    if not seeds:
+        raise AnalysisError("finite_difference: analytical sensitivities not recognised")
+    dep = _dependent_names(f.node, seeds)
+    loops = [n for n in ast.walk(f.node) if isinstance(n, ast.For) and "enumerate" in norm(n.iter) and any(
+        isinstance(x, ast.Call) and isinstance(x.func, ast.Attribute) and x.func.attr == "response" for x in ast.walk(n))]
+    if not loops:
+        raise AnalysisError("finite_difference: loop over the inputs not recognised")
+    bad = False
+    for lp in loops:
+        for x in ast.walk(lp):
+            if isinstance(x, (ast.Continue, ast.Break)):
+                g = parent(x)
+                guard = None
+                while g is not lp and g is not None:
+                    if isinstance(g, ast.If):
+                        guard = g.test
+                        break
+                    g = parent(g)
+                if guard is not None and (_names(guard) & dep):
+                    bad = True
+                    col.bad(where_of(f), f.rel, line_of(x), f"finite_difference: '{type(x).__name__.lower()}' under '{norm(guard)[:70]}'",
+                            f"part of the perturbation loop is skipped depending on the analytical sensitivities "
+                            f"({sorted(_names(guard) & dep)}): for an input whose sensitivity is None nothing is reported, so a module "
+                            f"that forgot that dependency passes")
+    if not bad:
+        col.ok(where_of(f), f.rel, line_of(loops[0]), "finite_difference: no perturbation skipped on the analytical sensitivities",
+               f"{len(loops)} input loop(s)")
